@@ -343,6 +343,9 @@ def check_sort(res, unit, fn, file, cmps):
     elem_t = finite.base_type(arr.get("t")).rstrip("*").strip()
     nname = npar.get("n")
     top = [x for x in cir.kids(cir.body(fn)) if x is not None]
+    # the shape-independent verdict first: a definite wrong output is the report, whatever the loops look like
+    if not sort_semantics(res, unit, fn, file, cmps, arr, buf, nname):
+        return
     merges = merge_loops(fn, unit)
     if len(merges) != 1:
         raise AnalysisError(f"{name}: expected one merge loop, found {len(merges)}")
@@ -352,7 +355,6 @@ def check_sort(res, unit, fn, file, cmps):
     if len(ins) != 1:
         raise AnalysisError(f"{name}: expected one insertion step, found {len(ins)}")
     info = check_insertion(res, unit, fn, file, name, ins[0][0], ins[0][1])
-    sort_semantics(res, unit, fn, file, cmps, arr, buf, nname)
 
     # ---------------------------------------------------------------- run loop
     def top_ancestor(x):
@@ -838,6 +840,16 @@ def merge_semantics(res, unit, fn, file, cmps, region, frame_of, src_key, dst_ke
     return True
 
 
+class Result_probe:
+    """a sink with the Result interface, to try an evaluation without recording it"""
+
+    def ok(self, *a, **k):
+        pass
+
+    def bad(self, *a, **k):
+        pass
+
+
 def partial_semantics(res, unit, fn, file, cmps, arr, nname, kname, maxn=5):
     name = fn.get("n")
     construct = f"{name}:small-arrays"
@@ -901,6 +913,14 @@ def check_partial(res, unit, fn, file, cmps):
         raise AnalysisError(f"{name}: expected (T* arr, T* buf, int n, int k, void* ctx)")
     arr, buf = ptrs
     top = [x for x in cir.kids(cir.body(fn)) if x is not None]
+    # the shape-independent verdict first (n, k in declaration order; the swapped roles are tried before reporting)
+    probe = Result_probe()
+    if partial_semantics(probe, unit, fn, file, cmps, arr, ints[0].get("n"), ints[1].get("n")) or \
+            partial_semantics(Result_probe(), unit, fn, file, cmps, arr, ints[1].get("n"), ints[0].get("n")):
+        sem_pre = True
+    else:
+        partial_semantics(res, unit, fn, file, cmps, arr, ints[0].get("n"), ints[1].get("n"))
+        return
     ins = insertion_loops(fn, unit)
     if len(ins) != 1:
         raise AnalysisError(f"{name}: expected one insertion step, found {len(ins)}")
@@ -1085,17 +1105,19 @@ def run(res, tier):
         fn = um.funcs.get(h)
         if fn is None:
             raise AnalysisError(f"anchor {h} missing in {MISC}")
+        ptr = [p for p in cir.params(fn) if finite.is_pointer_type(p.get("t"))][0]
+        isf = finite.is_float_type(finite.base_type(ptr.get("dt") or ptr.get("t")).rstrip("*").strip()) or "mjtNum" in (ptr.get("t") or "")
+        npar = [p for p in cir.params(fn) if finite.base_type(p.get("t")) == "int"][0].get("n")
+        # the shape-independent verdict first: a definite wrong output is the report, whatever the loops look like
+        if not helper_semantics(res, um, um.funcs[h], MISC, ptr.get("n"), npar, isf):
+            continue
         # canonical view: leading `if (..) break;` guards are loop-condition conjuncts
         fn = norm.fold_break_guards(norm.nest(fn))
         ins = insertion_loops(fn, um)
         if len(ins) != 1:
             raise AnalysisError(f"{h}: insertion step not found")
-        ptr = [p for p in cir.params(fn) if finite.is_pointer_type(p.get("t"))][0]
-        isf = finite.is_float_type(finite.base_type(ptr.get("dt") or ptr.get("t")).rstrip("*").strip()) or "mjtNum" in (ptr.get("t") or "")
         info = check_insertion(res, um, fn, MISC, h, ins[0][0], ins[0][1], float_keys=isf)
         # helper outer loop covers [1, n)
-        npar = [p for p in cir.params(fn) if finite.base_type(p.get("t")) == "int"][0].get("n")
-        helper_semantics(res, um, um.funcs[h], MISC, ptr.get("n"), npar, isf)
         construct = f"{h}:outer-bounds"
         ovd = info["ovd"]
         bad = [v for v in (2, 3, 4) if bool(ev(um, info["ocond"], {npar: 3}, frame={ovd.get("id"): v})) != (v < 3)]
